@@ -352,10 +352,15 @@ func c07(e *Env) {
 		s.left--
 		if c.Choose("use?", 4) == 0 {
 			// a USE: the client waits for its answer before sending anything else
-			if len(cl.Outstanding) > 0 {
+			if len(cl.Outstanding) > 0 && c.Choose("use-while-requests-in-flight", 3) != 2 {
 				s.left++
-				// cannot switch while data requests are in flight in this simple client: send data instead
+				// most of the time the client does not switch while data requests are in flight: send data instead
 			} else {
+				if len(cl.Outstanding) > 0 {
+					// ... but sometimes it does: what is in flight (and may still be retried) keeps
+					// the keyspace it was sent under
+					e.Res.Stats["probe.c07.use_while_requests_in_flight"]++
+				}
 				u := c07Uses[c.Choose("usewhich", len(c07Uses))]
 				if rush >= 0 && c.Choose("rushnow", 2) == 1 {
 					u = c07Uses[rush]
@@ -388,6 +393,12 @@ func c07(e *Env) {
 		switch kind {
 		case 0:
 			stt := world.DrawStmt(c, "'"+tok+"'", "t")
+			if len(w.Nodes) > 1 && c.Choose("c07retried", 4) == 3 {
+				// the first node asks the proxy to go elsewhere: the second attempt is made later, on
+				// another host, in the same keyspace as the first
+				w.Script[tok] = []world.Outcome{world.ErrOutcome("bootstrapping", &message.IsBootstrapping{ErrorMessage: "bootstrapping"})}
+				e.Res.Stats["probe.c07.request_retried_on_next_host"]++
+			}
 			dataReqs = append(dataReqs, cl.Send("query", tok, world.QueryMsg(stt.Text, primitive.ConsistencyLevelOne), nil))
 		case 1:
 			// unqualified table: the statement resolves in the connection's keyspace
